@@ -130,9 +130,10 @@ class Sim:
             m_, a_, f_ = op["derived_from"]
             from efootprint.abstract_modeling_classes.source_objects import SourceValue
             from efootprint.constants.units import u
-            new = (getattr(self.obj(m_), a_) * SourceValue(float(f_) * u.dimensionless)).set_label(op["label"])
             from efootprint.abstract_modeling_classes.explainable_object_base_class import Source
+            new = getattr(self.obj(m_), a_) * SourceValue(float(f_) * u.dimensionless)
             new.source = Source("user data", None)      # an input given by a user: it cites a source like the others
+            new.set_label(op["label"])                  # (labelled once the source is known, as the constructors do)
         if new is None:
             new = self._new_for(op)
         old = o.__dict__.get(op["attr"])
